@@ -52,6 +52,9 @@ def clip(err, head=5000, tail=3000):
     return err[:head] + "\n...[clipped]...\n" + err[-tail:]
 
 
+ORACLES = None   # oracle families of the property being checked (set in do_check)
+
+
 def run_chunk(exe, backend, variant, scenario, base, first, count, opts, samples=2, timeout=3600, env=None, wrapper=None):
     """Runs `count` seeds in one worker process; restarts after a worker death.
     Returns (records, deaths) where deaths = [(seed, rc, stderr_tail)]"""
@@ -61,6 +64,8 @@ def run_chunk(exe, backend, variant, scenario, base, first, count, opts, samples
     while i < end:
         cmd = list(wrapper or []) + [exe, "run", "--scenario", scenario, "--seed-base", str(base), "--first", str(i), "--count", str(end - i),
                "--backend", backend, "--variant", variant, "--samples", str(samples)]
+        if ORACLES:
+            cmd += ["--oracles", ",".join(ORACLES)]
         for k, v in sorted(opts.items()):
             cmd += ["--opt", "%s=%s" % (k, v)]
         with WORKER_SLOTS:
@@ -157,7 +162,8 @@ def run_plan(exe, plan_text, backend, variant, timeout=600, wrapper=None):
         fh.write(plan_text)
         path = fh.name
     try:
-        p = subprocess.run(list(wrapper or VALGRIND_IF(variant)) + [exe, "replay", "--plan", path, "--backend", backend, "--variant", variant], stdout=subprocess.PIPE,
+        p = subprocess.run(list(wrapper or VALGRIND_IF(variant)) + [exe, "replay", "--plan", path, "--backend", backend, "--variant", variant] +
+                           (["--oracles", ",".join(ORACLES)] if ORACLES else []), stdout=subprocess.PIPE,
                            stderr=subprocess.PIPE, timeout=timeout, env=dict(os.environ, **WORKER_ENV))
         out = p.stdout.decode(errors="replace")
         rec = None
@@ -337,6 +343,8 @@ def main():
 
 def do_replay(path):
     rp = json.load(open(path))
+    global ORACLES
+    ORACLES = rp.get("oracles") or (recipes.RECIPES.get(rp.get("property"), {}).get("oracles"))
     th, exes = build.ensure([rp["variant"]], [rp["backend"]])
     exe = exes[(rp["backend"], rp["variant"])]
     if rp.get("kind") == "batch-statistic":
@@ -403,6 +411,8 @@ def do_check(prop, tier, seed, extra):
         log("unknown property", prop)
         return 2
     rc_ = recipes.RECIPES[prop]
+    global ORACLES
+    ORACLES = rc_.get("oracles")
     batches = rc_["batches"](tier)
     if extra.get("only"):
         batches = [b for b in batches if re.search(extra["only"], b.get("name", ""))]
@@ -470,6 +480,12 @@ def do_check(prop, tier, seed, extra):
             cov["evaluations"] += 1
             merge_counts(cov["faults_fired"], r.get("faults", {}))
             merge_counts(cov["probes"], r.get("probes", {}))
+            if r.get("other_oracles"):
+                oo = cov.setdefault("other_property_oracles", {})
+                for kk, vv in r["other_oracles"].items():
+                    if kk not in oo:
+                        log("note: oracle %s (other property) fired: %s" % (kk, r.get("other_oracle_detail", {}).get(kk, "")[:300]))
+                    oo[kk] = oo.get(kk, 0) + vv
             merge_stats(pb["stats"], r.get("stats", {}))
             cov["steps"] += r.get("steps", 0)
             cov["switches"] += r.get("switches", 0)
@@ -613,7 +629,7 @@ def do_check(prop, tier, seed, extra):
         hid = hashlib.sha1((mplan + cls + oracle).encode()).hexdigest()[:10]
         path = os.path.join(OUT, "replays", "%s-%s.json" % (prop, hid))
         json.dump({"property": prop, "scenario": b["scenario"], "backend": b["backend"], "variant": b["variant"], "tree": th,
-                   "violation": {"cls": cls, "oracle": oracle, "detail": detail}, "death": isdeath, "plan": mplan,
+                   "violation": {"cls": cls, "oracle": oracle, "detail": detail}, "death": isdeath, "plan": mplan, "oracles": ORACLES,
                    "minimise_runs": nruns, "original_plan_lines": plan.count("\n"), "minimised_plan_lines": mplan.count("\n"),
                    "replay_cmd": "tools/check.py replay " + path}, open(path, "w"), indent=1)
         out_viol.append((path, "%s / %s: %s" % (cls, oracle, detail[:400])))
